@@ -3,6 +3,7 @@ mod common;
 mod c04;
 mod c13;
 mod c14;
+mod c16;
 
 fn main() {
     let args: Vec<String> = std::env::args().skip(1).collect();
@@ -19,6 +20,7 @@ fn main() {
         "c14-cose" => c14::cose(rest),
         "c14-datahash" => c14::datahash(rest),
         "c14-e2e" => c14::e2e(rest),
+        "c16-record" => c16::record(rest),
         _ => {
             eprintln!("unknown command {cmd}");
             std::process::exit(2);
